@@ -326,6 +326,8 @@ def to_sort_term(v, ty):
         return v.t
     if ty.name == "Dict" and v.ty.name == "Dict":
         return v.t
+    if ty == JV and v.ty == NONE:
+        return jv_null          # Python's None as a JSON value
     if ty.name in ("Dict", "List") and v.ty == JV:
         # a JSON value that is a table / list: the object it embeds (inverse of the embedding)
         return z3.Function("jv_to_Int", JVSort, I)(v.t)
